@@ -13,6 +13,7 @@
 import asyncio
 import contextvars
 import heapq
+import time as _walltime
 from asyncio import base_events, events
 
 NODE = contextvars.ContextVar("sim_node", default="main")
@@ -24,6 +25,39 @@ class SimDeadlock(Exception):
 
 class SimBudgetExceeded(Exception):
     """Step or simulated-time budget exhausted."""
+
+
+class RunTimeout(BaseException):
+    """Raised by the runner's wall-clock watchdog inside whatever frame is running."""
+
+
+HANG_SECONDS = 10.0
+
+
+CURRENT = None   # the loop of the run in progress (set by new_loop)
+
+
+def watchdog_fired(frame):
+    """Called by the runner's SIGALRM handler with the interrupted frame.  If one single callback has been
+    running for HANG_SECONDS of wall time, the code under test is spinning (virtual time cannot advance inside
+    a callback): remember 'module.function' of the innermost aiortc frame on the loop.  Otherwise the run was
+    merely slow - a harness matter, never a violation."""
+    loop = CURRENT
+    if loop is None or _walltime.monotonic() - getattr(loop, "handle_wall", 0) < HANG_SECONDS:
+        return
+    name = None
+    f = frame
+    while f is not None:
+        fn = f.f_code.co_filename
+        if "aiortc" in fn and "simrtc" not in fn:
+            name = "%s.%s" % (fn.rsplit("/", 1)[-1].replace(".py", ""), f.f_code.co_name)
+            break
+        f = f.f_back
+    loop.hang_info = name or "?"
+
+
+def hang_frame(loop, exc):
+    return getattr(loop, "hang_info", None)
 
 
 def node_of(handle):
@@ -58,6 +92,7 @@ class SimLoop(base_events.BaseEventLoop):
         self.current_node = "main"
         self.node_switches = 0
         self.stalls = 0
+        self.handle_wall = _walltime.monotonic()
         self.set_exception_handler(self._record_exception)
 
     # -- clock ---------------------------------------------------------
@@ -202,6 +237,7 @@ class SimLoop(base_events.BaseEventLoop):
         self.steps += 1
         if self.steps > self.max_steps:
             raise SimBudgetExceeded(f"step budget ({self.max_steps})")
+        self.handle_wall = _walltime.monotonic()   # (harness bookkeeping only: hang diagnosis)
         handle._run()
         handle = None
         if self.step_hook is not None:
@@ -209,6 +245,8 @@ class SimLoop(base_events.BaseEventLoop):
 
 
 def new_loop(choices=None, **kw):
+    global CURRENT
     loop = SimLoop(choices, **kw)
+    CURRENT = loop
     asyncio.set_event_loop(loop)
     return loop
